@@ -834,3 +834,60 @@ def live_waiters_at(tr: Trace, at_call: int) -> list:
     if not rc:
         return []
     return [(nm, w) for nm, ws in rc[-1].after.workers.items() for w in ws.collected_waiters]
+
+
+# ------------------------------------------------------------------ C31
+
+
+def mon_c31(tr: Trace) -> list[Violation]:
+    """timeout / cancellation on real runs: matching terminal event last, active steps named, deadline respected,
+    a finished run is never timed out, no step entered after the end."""
+    out: list[Violation] = []
+    case = _replay(tr)
+    kind = tr.outcome[0]
+    if kind in ("invalid", "deadlock", "runaway", "aborted", "pending"):
+        return out
+    timeout = tr.spec.get("timeout")
+    pubs = [e for (e, *_r) in tr.stream]
+    timed = [e for e in pubs if isinstance(e, WorkflowTimedOutEvent)]
+    cancelled = [e for e in pubs if isinstance(e, WorkflowCancelledEvent)]
+    rc = _runner_calls(tr)
+    start_t = rc[0].now if rc else 0.0
+    harness_cancel = any("stuck: cancelled by harness" in n for n in tr.notes)
+    if kind == "timeout":
+        if len(timed) != 1 or not isinstance(pubs[-1], WorkflowTimedOutEvent):
+            out.append(Violation("C31/timeout_without_timed_out_event_last", f"run failed with WorkflowTimeoutError; WorkflowTimedOutEvent published {len(timed)} times, last event {type(pubs[-1]).__name__ if pubs else None}", case))
+        else:
+            c = next((c for c in rc if c.kind == "reduce" and isinstance(c.tick, T.TickTimeout)), None)
+            if c is not None:
+                active = sorted(nm for nm, ws in c.before.workers.items() if ws.in_progress)
+                if sorted(timed[0].active_steps) != active:
+                    out.append(Violation("C31/active_steps_wrong", f"WorkflowTimedOutEvent names {sorted(timed[0].active_steps)}, steps in progress were {active}", case))
+                if timeout is not None and c.now < start_t + timeout:
+                    out.append(Violation("C31/timed_out_early", f"timeout {timeout} processed at {c.now}, run started at {start_t}", case))
+        if timeout is None:
+            out.append(Violation("C31/timeout_without_timeout", "run without a timeout failed with WorkflowTimeoutError", case))
+    else:
+        if timed:
+            out.append(Violation("C31/finished_run_timed_out", f"run ended as {kind} but WorkflowTimedOutEvent was published", case))
+        if timeout is not None and tr.end_time > start_t + timeout and not harness_cancel:
+            out.append(Violation("C31/unfinished_run_not_timed_out", f"run with timeout {timeout} started at {start_t} was still running at {tr.end_time} and ended as {kind}", case))
+    if kind == "cancelled":
+        if len(cancelled) != 1 or not isinstance(pubs[-1], WorkflowCancelledEvent):
+            out.append(Violation("C31/cancel_without_cancelled_event_last", f"WorkflowCancelledEvent published {len(cancelled)} times, last event {type(pubs[-1]).__name__ if pubs else None}", case))
+        c = next((c for c in rc if c.kind == "reduce" and isinstance(c.tick, T.TickCancelRun)), None)
+        if c is not None and c.after is not None and enc.state(c.after) != enc.state(c.before):
+            out.append(Violation("C31/cancel_changed_state", "the cancel tick changed the broker state", case))
+    elif cancelled:
+        out.append(Violation("C31/cancelled_event_without_cancel", f"run ended as {kind} but WorkflowCancelledEvent was published", case))
+    # nothing runs after the end
+    seen_terminal = False
+    for rec in tr.steps:
+        if rec[0] == "terminal" and rec[5].get("origin") == "runner":
+            seen_terminal = True
+        elif rec[0] == "enter" and seen_terminal:
+            out.append(Violation("C31/step_entered_after_end", f"step {rec[1]} entered (event {rec[2]}) after the terminal event was published", case))
+    ti = next((i for i, c in enumerate(rc) if c.kind == "reduce" and _is_exit(c.cmds)), None)
+    if ti is not None and any(c.kind == "reduce" for c in rc[ti + 1:]):
+        out.append(Violation("C31/tick_processed_after_end", f"{len(rc) - ti - 1} tick(s) processed after the exit command", case))
+    return out
